@@ -330,6 +330,70 @@ fn oracle_schedule() -> bool {
 static KNOB: std::sync::atomic::AtomicUsize = std::sync::atomic::AtomicUsize::new(0);
 fn set_k(k: usize) { KNOB.store(k, std::sync::atomic::Ordering::SeqCst); }
 
+// ---- a destination filesystem that refuses to create one particular file (both worlds): a directory transfer that fails part-way
+#[derive(Debug)]
+struct RefuseS { inner: MemoryFS, bad: &'static str }
+impl vfs::FileSystem for RefuseS {
+    fn read_dir(&self, path: &str) -> VfsResult<Box<dyn Iterator<Item = String> + Send>> { self.inner.read_dir(path) }
+    fn create_dir(&self, path: &str) -> VfsResult<()> { self.inner.create_dir(path) }
+    fn open_file(&self, path: &str) -> VfsResult<Box<dyn vfs::SeekAndRead + Send>> { self.inner.open_file(path) }
+    fn create_file(&self, path: &str) -> VfsResult<Box<dyn vfs::SeekAndWrite + Send>> { if path == self.bad { Err(VfsErrorKind::Other("refused".into()).into()) } else { self.inner.create_file(path) } }
+    fn append_file(&self, path: &str) -> VfsResult<Box<dyn vfs::SeekAndWrite + Send>> { self.inner.append_file(path) }
+    fn metadata(&self, path: &str) -> VfsResult<VfsMetadata> { self.inner.metadata(path) }
+    fn exists(&self, path: &str) -> VfsResult<bool> { self.inner.exists(path) }
+    fn remove_file(&self, path: &str) -> VfsResult<()> { self.inner.remove_file(path) }
+    fn remove_dir(&self, path: &str) -> VfsResult<()> { self.inner.remove_dir(path) }
+}
+#[derive(Debug)]
+struct RefuseA { inner: AsyncMemoryFS, bad: &'static str }
+#[async_trait::async_trait]
+impl AsyncFileSystem for RefuseA {
+    async fn read_dir(&self, path: &str) -> VfsResult<Box<dyn Unpin + Stream<Item = String> + Send>> { self.inner.read_dir(path).await }
+    async fn create_dir(&self, path: &str) -> VfsResult<()> { self.inner.create_dir(path).await }
+    async fn open_file(&self, path: &str) -> VfsResult<Box<dyn vfs::async_vfs::SeekAndRead + Send + Unpin>> { self.inner.open_file(path).await }
+    async fn create_file(&self, path: &str) -> VfsResult<Box<dyn async_std::io::Write + Send + Unpin>> { if path == self.bad { Err(VfsErrorKind::Other("refused".into()).into()) } else { self.inner.create_file(path).await } }
+    async fn append_file(&self, path: &str) -> VfsResult<Box<dyn async_std::io::Write + Send + Unpin>> { self.inner.append_file(path).await }
+    async fn metadata(&self, path: &str) -> VfsResult<VfsMetadata> { self.inner.metadata(path).await }
+    async fn exists(&self, path: &str) -> VfsResult<bool> { self.inner.exists(path).await }
+    async fn remove_file(&self, path: &str) -> VfsResult<()> { self.inner.remove_file(path).await }
+    async fn remove_dir(&self, path: &str) -> VfsResult<()> { self.inner.remove_dir(path).await }
+}
+/// copy_dir / move_dir of a small tree into a destination that refuses one file: the same outcome class and, afterwards, the same source and
+/// destination trees in both worlds (a transfer that fails part-way must fail the same way)
+fn transfer_dir_partial(r: &mut Report, rt: &tokio::runtime::Runtime) {
+    for mv in [false, true] {
+        // the walk hands out a whole listing before it descends: a file below `sub` is reached after every file of the top level, whatever the
+        // (unspecified) listing order - so the failure point is the same in both worlds up to the order inside `sub`
+        for bad in ["/out/sub/z", "/none"] {
+            r.case();
+            let (ss, sa): (VfsPath, AsyncVfsPath) = (MemoryFS::new().into(), AsyncMemoryFS::new().into());
+            let (ds, da): (VfsPath, AsyncVfsPath) = (VfsPath::new(RefuseS { inner: MemoryFS::new(), bad }), AsyncVfsPath::new(RefuseA { inner: AsyncMemoryFS::new(), bad }));
+            let res = catch_unwind(AssertUnwindSafe(|| rt.block_on(async {
+                for (p, c) in [("src", None), ("src/a0", Some("0")), ("src/a1", Some("1")), ("src/sub", None), ("src/sub/y", Some("y")), ("src/sub/z", Some("z")), ("src/zz", Some("zz"))] {
+                    match c { None => { ss.join(p).unwrap().create_dir().unwrap(); sa.join(p).unwrap().create_dir().await.unwrap(); }
+                              Some(b) => { ss.join(p).unwrap().create_file().unwrap().write_all(b.as_bytes()).unwrap(); sa.join(p).unwrap().create_file().await.unwrap().write_all(b.as_bytes()).await.unwrap(); } }
+                }
+                let (rs, ra) = if mv { (ss.join("src").unwrap().move_dir(&ds.join("out").unwrap()).map(|_| 0), sa.join("src").unwrap().move_dir(&da.join("out").unwrap()).await.map(|_| 0)) }
+                               else { (ss.join("src").unwrap().copy_dir(&ds.join("out").unwrap()), sa.join("src").unwrap().copy_dir(&da.join("out").unwrap()).await) };
+                tr(&format!("dir {} {} {:?}", mv, bad, ra.as_ref().map_err(|e| class_of(e))));
+                if rs.as_ref().map_err(|e| class_of(e)) != ra.as_ref().map_err(|e| class_of(e)) { return Some(format!("sync {:?}, async {:?}", rs.map_err(|e| e.to_string()), ra.map_err(|e| e.to_string()))); }
+                let failed = ra.is_err();
+                for (fs_s, fs_a, which) in [(&ss, &sa, "source"), (&ds, &da, "destination")] {
+                    let (ws, wa) = (sync_walk(fs_s), async_walk(fs_a).await);
+                    // after a failure inside `sub` the destination differs by the (order dependent) sibling that was or was not copied yet
+                    let keep = |v: Vec<String>| -> Vec<String> { let mut v: Vec<String> = v.into_iter().filter(|p| !(failed && which == "destination" && p.starts_with("/out/sub/"))).collect(); v.sort(); v };
+                    let (ws2, wa2) = (keep(ws.clone().unwrap_or_default()), keep(wa.clone().unwrap_or_default()));
+                    tr(&format!("{:?}", wa2));
+                    if ws.is_ok() != wa.is_ok() || ws2 != wa2 { return Some(format!("{} tree afterwards: sync {:?}, async {:?}", which, ws2, wa2)); }
+                }
+                None
+            })));
+            let what = format!("directory transfer move={} refused={}", mv, bad);
+            match res { Err(_) => r.fail(what, "panicked".into()), Ok(Some(d)) => r.fail(what, d), Ok(None) => {} }
+        }
+    }
+}
+
 /// copy_file / move_file between two filesystem instances (memory, altroot over memory, physical as the source): async against sync
 fn oracle_transfer() -> bool {
     let mut r = Report::new("transfer");
@@ -357,6 +421,7 @@ fn oracle_transfer() -> bool {
             }
         }
     }
+    transfer_dir_partial(&mut r, &rt);
     r.done()
 }
 
